@@ -29,6 +29,8 @@ class Joiner:
         self.lost_ef_b = {}
         self.seq_sites = []
         self.phi_path = {}
+        self.sa_all = {}
+        self.sb_all = {}
 
     # ---- symbols
     def sym(self, a, b, path):
@@ -42,6 +44,9 @@ class Joiner:
         self.phi_path[p] = path
         self.sa.setdefault(a, p)
         self.sb.setdefault(b, p)
+        # one source symbol can sit in several places and so get several phis: keep them all for interval deltas
+        self.sa_all.setdefault(a, []).append(p)
+        self.sb_all.setdefault(b, []).append(p)
         return p
 
     # ---- values
@@ -482,10 +487,11 @@ class Joiner:
             return base
         iv = dict(base.iv)
         facts = list(base.facts)
+        sx_all = self.sa_all if sx is self.sa else (self.sb_all if sx is self.sb else {})
         for s, v in extra.iv.items():
-            js = sx.get(s, s)
-            cur = iv.get(js)
-            iv[js] = v if cur is None else D.meet(cur, v)
+            for js in (sx_all.get(s) or (sx.get(s, s),)):
+                cur = iv.get(js)
+                iv[js] = v if cur is None else D.meet(cur, v)
         for f in extra.facts:
             fj = f.rename(sx) if any(s in sx for s in f.t) else f
             if fj not in facts:
@@ -516,14 +522,15 @@ class Joiner:
         iv = {}
         side_a = (like if like is not None else X) is self.A
         stale = (self.stale_a | self.dead_in_a) if side_a else (self.stale_b | self.dead_in_b)
+        sx_all = self.sa_all if sx is self.sa else (self.sb_all if sx is self.sb else {})
         for s, v in X.iv.items():
             if s in stale:
                 continue
-            js = sx.get(s, s)
-            jv = J.iv.get(js)
-            if jv is not None and v != jv and D.subset(v, jv):
-                cur = iv.get(js)
-                iv[js] = v if cur is None else D.meet(cur, v)
+            for js in (sx_all.get(s) or (sx.get(s, s),)):
+                jv = J.iv.get(js)
+                if jv is not None and v != jv and D.subset(v, jv):
+                    cur = iv.get(js)
+                    iv[js] = v if cur is None else D.meet(cur, v)
         facts = []
         for f in X.facts:
             if stale and any(s in stale for s in f.t):
